@@ -60,12 +60,50 @@ def vecR(p):
     return "(%s, %s, %s)" % (R(p[0]), R(p[1]), R(p[2]))
 
 
-def Q(x):
-    return core.float_to_q(float(x))
+def mant_exp(x):
+    """x = m * 2**e exactly, m odd (or 0)"""
+    x = float(x)
+    if x == 0.0:
+        return 0, 0
+    if x != x or x in (float("inf"), float("-inf")):
+        raise GenError("non-finite coordinate %r" % (x,))
+    m, e = math.frexp(x)
+    mi = int(m * (1 << 53))
+    ee = e - 53
+    while mi % 2 == 0:
+        mi //= 2
+        ee += 1
+    return mi, ee
 
 
-def vecQ(p):
-    return "(%s, %s, %s)" % (Q(p[0]), Q(p[1]), Q(p[2]))
+def common_exp(values):
+    """smallest E >= 0 such that every value is an integer multiple of 2**-E"""
+    E = 0
+    for x in values:
+        m, e = mant_exp(x)
+        if m != 0 and -e > E:
+            E = -e
+    if E > 700:
+        raise GenError("a coordinate needs the unit 2^-%d" % E)
+    return E
+
+
+def zint(x, E):
+    fr = Fr(float(x)) * (1 << E)
+    if fr.denominator != 1:
+        raise GenError("value %r is not a multiple of 2^-%d" % (x, E))
+    return int(fr.numerator)
+
+
+def Z(i):
+    """hexadecimal numerals (parsed much faster than long decimal ones)"""
+    if abs(i) < 1000000:
+        return "(%d)" % i if i < 0 else "%d" % i
+    return "(-0x%x)" % (-i) if i < 0 else "0x%x" % i
+
+
+def vecZ(p, E):
+    return "(%s, %s, %s)" % (Z(zint(p[0], E)), Z(zint(p[1], E)), Z(zint(p[2], E)))
 
 
 def nl(l):
@@ -468,11 +506,25 @@ def oracle_round(verts, disk, core_f, shell_f):
 
 
 def round_record(rid, tol, verts, cf, sf, disk, core_f, shell_f):
-    faces = lambda fs: "[" + ";\n      ".join("[" + "; ".join(vecQ(p) for p in f) + "]" for f in fs) + "]"
-    return ("{| rc_id := %d; rc_tol := %s;\n   rc_verts := [%s];\n   rc_core := %s;\n   rc_shell := %s;\n"
-            "   rc_center := %s; rc_normal := %s; rc_radius := %s;\n   rc_found_core := %s; rc_found_shell := %s |}"
-            % (rid, Q(tol), "; ".join(vecQ(v) for v in verts), faces(cf), faces(sf),
-               vecQ(disk[0]), vecQ(disk[1]), Q(disk[2]), nl(core_f), nl(shell_f)))
+    """all numbers of the case as integer mantissas at one common unit 2^-E; the normal at its own unit, reduced"""
+    vals = [tol, disk[2]] + list(disk[0])
+    for v in verts:
+        vals += list(v)
+    for f in cf + sf:
+        for p_ in f:
+            vals += list(p_)
+    E = common_exp(vals)
+    En = common_exp(disk[1])
+    nz = [zint(x, En) for x in disk[1]]
+    g = math.gcd(math.gcd(abs(nz[0]), abs(nz[1])), abs(nz[2]))
+    if g == 0:
+        raise GenError("zero normal")
+    nz = [x // g for x in nz]
+    faces = lambda fs: "[" + ";\n      ".join("[" + "; ".join(vecZ(p_, E) for p_ in f) + "]" for f in fs) + "]"
+    return ("{| rc_id := %d; rc_exp := %d; rc_tol := %s;\n   rc_verts := [%s];\n   rc_core := %s;\n   rc_shell := %s;\n"
+            "   rc_center := %s; rc_normal := (%s, %s, %s); rc_radius := %s;\n   rc_found_core := (%s)%%nat; rc_found_shell := (%s)%%nat |}"
+            % (rid, E, Z(zint(tol, E)), "; ".join(vecZ(v, E) for v in verts), faces(cf), faces(sf),
+               vecZ(disk[0], E), Z(nz[0]), Z(nz[1]), Z(nz[2]), Z(zint(disk[2], E)), nl(core_f), nl(shell_f)))
 
 
 CANON_ROUND = [
@@ -784,15 +836,17 @@ def tab_cube():
 
 def emit_tables(tol, rrows, crows):
     o = ["(* GENERATED by harness/props/C18.py from the working tree of /repo -- do not edit *)",
-         "From Coq Require Import List ZArith QArith Bool.",
+         "From Coq Require Import List ZArith Bool.",
          "From CB Require Import Base.Hex Model.C18_Finder Model.C18_RoundSpec.",
-         "Import ListNotations.", "Open Scope nat_scope.", "",
-         "(* constants.TOL as the exact value of the binary64 *)",
-         "Definition tol_q : Q := %s." % Q(tol), "",
+         "Import ListNotations.", "Open Scope Z_scope.", "",
+         "(* constants.TOL as the exact value of the binary64: tol_m * 2^-tol_e *)",
+         "Definition tol_m : Z := %d%%Z." % mant_exp(tol)[0],
+         "Definition tol_e : Z := %d%%Z." % (-mant_exp(tol)[1]), "",
          "(* RoundSolidFinder on canonical shapes: id = 2 * shape + end *)",
          "Definition round_tab : list round_case :=\n  [" + ";\n   ".join(
              round_record(rid, tol, verts, cf, sf, disk, core_f, shell_f)
              for (rid, _spec, _end, verts, cf, sf, disk, core_f, shell_f) in rrows) + "].", "",
+         "Open Scope nat_scope.",
          "(* ViewpointReorienter on the unit cube seen from (0.5,-10,0.5) with ceiling (0.5,0.5,10):",
          "   (initial numbering p : new corner i was cube corner p[i], positions of corners 0..7 afterwards) *)",
          "Definition cube_tab : list (list nat * option (list (Z * Z * Z))) :=\n  [" + ";\n   ".join(
@@ -931,12 +985,12 @@ class C18(Prop):
                     res.samples.append(dict(kind="round", shape=spec, end=end, core=core_f, shell=shell_f))
         per = 20
         for s0 in range(0, len(rcases), per):
-            body = ["From Coq Require Import List Bool Arith QArith.",
-                    "From CB Require Import Model.C18_Finder Model.C18_RoundSpec.", "Import ListNotations.", "Open Scope nat_scope.",
+            body = ["From Coq Require Import List Bool Arith ZArith.",
+                    "From CB Require Import Model.C18_Finder Model.C18_RoundSpec Proofs.C18_Finder.", "Import ListNotations.", "Open Scope Z_scope.",
                     "Definition cases : list round_case := ["]
             body.append(";\n".join(round_record(k, tol, *rcases[k][2:]) for k in range(s0, min(s0 + per, len(rcases)))))
             body.append("].")
-            body.append("Eval vm_compute in (map rc_id (filter (fun c => negb (rc_model_ok c)) cases)).")
+            body.append("Eval vm_compute in (map rc_id (filter (fun c => negb (rc_model_ok_fast c)) cases)).")
             body.append("Eval vm_compute in (map rc_id (filter (fun c => negb (rc_spec_ok c)) cases)).")
             shards.append(("rd_%d" % (s0 // per), "\n".join(body) + "\n"))
         # (c) re-orienter ----------------------------------------------------------------------
